@@ -11,10 +11,13 @@ import (
 
 	logging "github.com/ipfs/go-log/v2"
 
+	"verif/harness/internal/c05"
 	"verif/harness/internal/c09"
+	"verif/harness/internal/c10"
 	"verif/harness/internal/c12"
 	"verif/harness/internal/c19"
 	"verif/harness/internal/fw"
+	"verif/harness/internal/victim"
 )
 
 func main() {
@@ -23,6 +26,16 @@ func main() {
 		os.Exit(2)
 	}
 	prop := os.Args[1]
+	switch prop {
+	case "victim-server":
+		_ = logging.SetLogLevel("*", "fatal")
+		victim.ServerMain()
+		return
+	case "victim-client":
+		_ = logging.SetLogLevel("*", "fatal")
+		victim.ClientMain(os.Args[2])
+		return
+	}
 	fs := flag.NewFlagSet(prop, flag.ExitOnError)
 	seed := fs.Int64("seed", 1, "seed for every random choice")
 	tier := fs.String("tier", "quick", "quick|thorough")
@@ -79,6 +92,12 @@ func main() {
 			*seed = -1
 		}
 		err = c12.Run(d, res, *seed, thorough, corpus)
+	case "C05":
+		res.Rule = "backoff: grid of (minDelay, maxDelay) x attempts -2..N x repetitions (implementation's own jitter); distinct = (min, max, attempt); non-trivial = delay still growing (or every 50th capped attempt)"
+		err = c05.RunBackoff(d, res, thorough, corpus)
+	case "C10":
+		res.Rule = "hostile frames from the property's descriptor grid (control methods x params shapes x element values x id types, responses never requested, calls of every error class, undecodable/binary/empty buffers) sent singly and in random sequences to a real server and, from a fake server, to a real client, each in a child process; body sizes L-1..L+2 for 11 limits; distinct = distinct frame sequence; every case is non-trivial (hostile input reaches the executor)"
+		err = c10.Run(d, res, *seed, thorough, corpus)
 	case "C19":
 		res.Rule = "exhaustive: 10 default sets x 10 caller sets x {attached, not} x 3 required permissions x 2 method shapes through the real PermissionedProxy, and 14 Authorization header forms x 6 token query forms through the real auth.Handler; every case is distinct and non-trivial (a permission decision is taken)"
 		err = c19.Run(d, res)
